@@ -4,6 +4,8 @@ from vlib import h264gen as g
 from vlib.bitgen import hx
 
 ID = "C16"
+# the property speaks about accepted inputs (values / invariants); which error a rejected input gets is not part of it
+ERROR_IDENTITY_IRRELEVANT = True
 RULE = ("exhaustive: every RBSP of up to 2 bytes (65793) for the SPS parser (after a fixed 3-byte profile/flags/level prefix "
         "for 3 profiles) and for the PPS and slice parsers under 4 contexts; then mutation-based: generated valid sets with "
         "1..3 random bit flips. observable: parse result (vs the model) and the invariants of the property evaluated on the "
